@@ -97,6 +97,22 @@ def all_conts(S):
     return out
 
 
+def clone_content(content):
+    """a copy of a content model for an anonymous type; an inline type is written once, so a
+    copied member that itself has an inline type gets a built-in type instead"""
+    c = copy.deepcopy(content)
+
+    def walk(p):
+        if isinstance(p, F.Cont):
+            for k in p.kids:
+                walk(k)
+        elif isinstance(p, F.Elem) and p.tref[0] == "n" and p.tref[1] >= HID:
+            p.tref = ("b", "string")
+    for p in c:
+        walk(p)
+    return c
+
+
 def related(S, a, b):
     return S.derived_from(a, b) or S.derived_from(b, a)
 
@@ -169,7 +185,7 @@ def gen_interface(rng):
             (t, c, e) = rng.choice(cands)
             if S.type(t.ns + HID, e.name) is not None:
                 continue
-            S.types.append(F.CType(e.name, t.ns + HID, src.base, copy.deepcopy(src.content),
+            S.types.append(F.CType(e.name, t.ns + HID, src.base, clone_content(src.content),
                                    copy.deepcopy(src.attrs)))
             e.tref = ("n", t.ns + HID, e.name)
             feats.add("anonymous-type")
@@ -177,7 +193,7 @@ def gen_interface(rng):
         src = rng.choice(S.visible)
         gns = rng.randrange(nns)
         if S.type(gns + HID, "ga") is None:
-            S.types.append(F.CType("ga", gns + HID, src.base, copy.deepcopy(src.content), copy.deepcopy(src.attrs)))
+            S.types.append(F.CType("ga", gns + HID, src.base, clone_content(src.content), copy.deepcopy(src.attrs)))
             S.gelems.append(GElem("ga", gns, ("n", gns + HID, "ga")))
             feats.add("anonymous-type")
     # global elements: one wrapper per complex type (also used as operations),
